@@ -35,6 +35,7 @@ Sift Config:
 """
 
 import sys
+import copy
 import logging
 import inspect
 import functools
@@ -1639,7 +1640,9 @@ class SiftConfig(collections.abc.MutableMapping):
 
     def _get_yamlsafe_dict(self):
         """Return copy of internal store with values prepped for saving into yaml format."""
-        conf = self.store.copy()
+        # Deep copy: the conversion below rewrites nested dictionaries in place
+        # and must not touch the live options held in self.store
+        conf = copy.deepcopy(self.store)
         conf = _array_or_tuple_to_list(conf)
         return [{'sift_type': self.sift_type}, conf]
 
